@@ -14,12 +14,21 @@ pub mod stubs;
 pub mod h;
 
 pub mod c02;
+pub mod c11;
+pub mod c12;
+pub mod c13;
 pub mod c15;
+pub mod c17;
 
 /// every harness, for the native replayer
 pub fn all() -> Vec<(&'static str, fn())> {
     let mut v = Vec::new();
     v.extend_from_slice(c02::LIST);
+    v.extend_from_slice(c11::LIST);
+    v.extend_from_slice(c12::LIST);
+    v.extend_from_slice(c13::LIST);
     v.extend_from_slice(c15::LIST);
+    v.extend_from_slice(c17::LIST);
+    v.extend_from_slice(c17::more::LIST);
     v
 }
